@@ -1,5 +1,145 @@
-From VF.C19 Require Import Model.
+(* C19 - property theorems only.  Each is closed by [exact] of a lemma of the
+   proof files and followed by Print Assumptions.
+
+   Reading guide.  [H] is Keccak-256, [dec] is decodeNode (both arbitrary
+   functions: every theorem is quantified over them).  A history is a list of
+   operations [OProcess items | ODeliver blob | OCommit limit | ORestart]
+   applied to [new_sync root cb db0]: responses in any order and batching,
+   duplicates, data nobody asked for, undecodable data, writers failing after
+   [limit] puts, and restarts on the database as it is.  [honest_op] only says
+   that the hash passed along with a blob is the blob's hash - which is what the
+   caller (trieSync.processNodeData, modelled by [ODeliver]) guarantees; the
+   blob itself is arbitrary.  [OC l] (ordered closedness) says: every entry of
+   the list hashes to its key and everything it needs - hash children, and for
+   account leaves of a state sync the storage root, the code and the
+   delegations blob - is in the OLDER part of the list.  The database is the
+   list of writes, newest first.
+
+   Finding class (fixes/C19_raw_entry_satisfies_node_request.md): requests, the
+   membatch and the database are keyed by hash only, so a blob requested as a
+   raw entry (contract code) also satisfies a trie-node request for the same
+   hash without its children being fetched.  The theorems hold outside this
+   class, described by two hypotheses on [H]/[dec]:
+     raw_node_separate         - a blob whose hash some account uses as code or
+                                 delegations hash does not decode to a node that
+                                 needs anything;
+     storage_account_separate  - no node of a storage trie carries a value that
+                                 decodes as an account (the callback-less
+                                 request would win the merge).
+   [C19_complete_refuted] shows that without them the statement is false. *)
+From VF.C19 Require Import Model Proofs ProofsInv ProofsMain.
 Local Open Scope N_scope.
-Example C19_nonvacuous_stub : pending (new_sync (fun _ => None) 5 false []) = 1.
-Proof. vm_compute. reflexivity. Qed.
-Print Assumptions C19_nonvacuous_stub.
+
+(* 1. closed at every point: after every history - hence after every Commit,
+   after every prefix of a commit's writes (also [forall k] below: the first k
+   membatch entries written, in membatch order), at every restart - the
+   database is hash-consistent and ordered-closed.  No assumption on hash
+   collisions is needed. *)
+Theorem C19_closed_holds_outside :
+  forall H dec cb root, no_zero H -> raw_node_separate H dec cb -> storage_account_separate H dec cb ->
+  forall db0 ops, OC H dec cb db0 -> Forall (honest_op H) ops ->
+    OC H dec cb (store_of (run H dec root cb db0 ops)) /\
+    forall k, OC H dec cb (rev (firstn k (s_mem (run H dec root cb db0 ops)))
+                             ++ s_db (run H dec root cb db0 ops)).
+Proof. exact closed_always. Qed.
+Print Assumptions C19_closed_holds_outside.
+
+(* 2. an interrupted sync never presents a partially filled trie as complete:
+   whatever is present in the database - at any point, with any prefix of the
+   pending membatch written - has its whole closure present. *)
+Theorem C19_never_partial_holds_outside :
+  forall H dec cb root, no_zero H -> raw_node_separate H dec cb -> storage_account_separate H dec cb ->
+  injective H ->
+  forall db0 ops, OC H dec cb db0 -> Forall (honest_op H) ops ->
+  forall k h,
+    has (rev (firstn k (s_mem (run H dec root cb db0 ops))) ++ s_db (run H dec root cb db0 ops)) h = true ->
+    Complete dec cb (rev (firstn k (s_mem (run H dec root cb db0 ops))) ++ s_db (run H dec root cb db0 ops)) h.
+Proof. exact never_partial. Qed.
+Print Assumptions C19_never_partial_holds_outside.
+
+(* 3. completion: Pending() = 0 means the closure of the requested root is in
+   membatch + database, and after the final Commit in the database *)
+Theorem C19_complete_holds_outside :
+  forall H dec cb root, no_zero H -> raw_node_separate H dec cb -> storage_account_separate H dec cb ->
+  injective H ->
+  forall db0 ops, OC H dec cb db0 -> Forall (honest_op H) ops ->
+    (pending (run H dec root cb db0 ops) = 0 ->
+     root = empty_root \/ Complete dec cb (store_of (run H dec root cb db0 ops)) root) /\
+    (pending (run H dec root cb db0 (ops ++ [OCommit None])) = 0 ->
+     root = empty_root \/ Complete dec cb (s_db (run H dec root cb db0 (ops ++ [OCommit None]))) root).
+Proof. exact complete_both. Qed.
+Print Assumptions C19_complete_holds_outside.
+
+(* 4. identical content: a complete, hash-consistent database and a complete,
+   hash-consistent source agree on the whole closure of the root - the same set
+   of reachable hashes and the same bytes under each *)
+Theorem C19_identical_content :
+  forall H dec cb, injective H ->
+  forall db src, hash_ok H db -> hash_ok H src ->
+  forall r, Complete dec cb db r -> Complete dec cb src r ->
+  forall x, (Reach dec cb db r x <-> Reach dec cb src r x) /\
+            (Reach dec cb db r x -> get db x = get src x).
+Proof. exact same_closure. Qed.
+Print Assumptions C19_identical_content.
+
+Theorem C19_database_hash_consistent :
+  forall H dec cb l, OC H dec cb l -> hash_ok H l.
+Proof. exact OC_hash_ok. Qed.
+Print Assumptions C19_database_hash_consistent.
+
+(* 5. wrong data: in EVERY scheduler state a blob that does not hash to a
+   pending request is rejected and changes nothing; so is a blob that hashes to
+   a pending node request but does not decode, and a second copy of a node
+   that is waiting for its children *)
+Theorem C19_wrong_data :
+  forall H dec s b,
+    (find_req (s_reqs s) (H b) = None -> deliver H dec s b = (s, (false, 0, ENotRequested))) /\
+    (forall r, find_req (s_reqs s) (H b) = Some r -> r_data r = None -> r_raw r = false -> dec b = None ->
+               deliver H dec s b = (s, (false, 0, EDecode))) /\
+    (forall r x, find_req (s_reqs s) (H b) = Some r -> r_data r = Some x ->
+                 deliver H dec s b = (s, (false, 0, EAlready))).
+Proof. exact wrong_data_all. Qed.
+Print Assumptions C19_wrong_data.
+
+(* 6. the statement without the two hypotheses is false: contract code equal to
+   the RLP of a storage root node (witness world of ProofsMain.v) *)
+Theorem C19_complete_refuted : ~ C19_full_statement.
+Proof. exact full_statement_refuted. Qed.
+Print Assumptions C19_complete_refuted.
+
+(* ---- non-vacuity ------------------------------------------------------------------- *)
+
+(* a world that meets every hypothesis, with a history containing an unrequested
+   blob, a duplicate, a writer failing after one put, a restart and a completion *)
+Example C19_nonvacuous_world :
+  no_zero wH /\ raw_node_separate wH gdec true /\ storage_account_separate wH gdec true /\ injective wH /\
+  OC wH gdec true [] /\ Forall (honest_op wH) gops /\
+  pending (run wH gdec 11 true [] gops) = 0 /\
+  s_db (run wH gdec 11 true [] gops) = [(11, 1); (13, 3); (14, 4); (15, 5); (12, 2); (16, 6)] /\
+  11 <> empty_root.
+Proof. exact g_world. Qed.
+Print Assumptions C19_nonvacuous_world.
+
+(* the interrupted prefix of that history: three requests pending, one entry on
+   disk (the writer failed after the first put), two in the membatch *)
+Example C19_nonvacuous_interrupted :
+  let s := run wH gdec 11 true [] (firstn 7 gops) in
+  pending s = 3 /\ s_db s = [(16, 6)] /\ s_mem s = [(16, 6); (12, 2)] /\
+  has (s_db s) 11 = false.
+Proof. vm_compute. auto. Qed.
+Print Assumptions C19_nonvacuous_interrupted.
+
+(* wrong data in a concrete busy state: blob 7 (hash 17) was never requested *)
+Example C19_nonvacuous_wrong_data :
+  let s := run wH gdec 11 true [] (firstn 5 gops) in
+  pending s = 3 /\ find_req (s_reqs s) (wH 7) = None /\
+  deliver wH gdec s 7 = (s, (false, 0, ENotRequested)).
+Proof. vm_compute. auto. Qed.
+Print Assumptions C19_nonvacuous_wrong_data.
+
+(* the witness of the finding: the sync reports completion, the root is on disk,
+   the storage trie below hash 14 is not *)
+Example C19_nonvacuous_witness :
+  pending wrun = 0 /\ s_mem wrun = [] /\ has (s_db wrun) 11 = true /\ has (s_db wrun) 15 = false.
+Proof. vm_compute. auto. Qed.
+Print Assumptions C19_nonvacuous_witness.
